@@ -32,14 +32,29 @@ func accumulatingAdds(c *Ctx, f *ssa.Function) []*ssa.Call {
 			}
 			switch recv := call.Common().Args[0].(type) {
 			case *ssa.UnOp:
-				// the accumulator lives in memory: loaded from, and stored back into, the same local
-				acc, ok := recv.X.(*ssa.Alloc)
-				if !ok {
+				// the accumulator lives in memory: loaded from, and stored back into, the same local (or the same field of a local struct)
+				cell := func(a ssa.Value) string {
+					path := ""
+					for {
+						fa, ok := a.(*ssa.FieldAddr)
+						if !ok {
+							break
+						}
+						path = fmt.Sprintf(".%d%s", fa.Field, path)
+						a = fa.X
+					}
+					if al, ok := a.(*ssa.Alloc); ok {
+						return al.Name() + path
+					}
+					return ""
+				}
+				acc := cell(recv.X)
+				if acc == "" {
 					continue
 				}
 				if refs := call.Referrers(); refs != nil {
 					for _, rf := range *refs {
-						if st, ok := rf.(*ssa.Store); ok && st.Addr == ssa.Value(acc) {
+						if st, ok := rf.(*ssa.Store); ok && cell(st.Addr) == acc {
 							out = append(out, call)
 							break
 						}
@@ -79,25 +94,38 @@ func flowsInto(v ssa.Value, phi *ssa.Phi, seen map[ssa.Value]bool) bool {
 // function unless the summation was extracted into a helper.
 func feeFunc(c *Ctx, m string) (adder, admit *ssa.Function) {
 	best := 0
-	for _, f := range c.W.PkgFuncs("x/" + m + "/ante") {
+	var scope []*ssa.Function
+	for f := range c.W.Reachable(c.W.Roots["ANTE:"+m]) {
+		if pk := ir.FnPkg(f); pk == nil || strings.HasSuffix(pk.Path(), "/keeper") || strings.HasSuffix(pk.Path(), "/types") {
+			continue
+		}
 		if f.Parent() != nil || c.W.IsGenerated(f) {
 			continue
 		}
+		scope = append(scope, f)
+	}
+	sortFuncs(scope)
+	for _, f := range scope {
 		if n := len(accumulatingAdds(c, f)); n > best && len(typeSwitchCases(c, f)) >= 2 {
 			best, adder = n, f
 		}
 	}
-	for _, f := range c.W.PkgFuncs("x/" + m + "/ante") {
-		if f.Parent() != nil || c.W.IsGenerated(f) || adder == nil {
+	for _, f := range scope {
+		if adder == nil {
 			continue
 		}
 		if _, reaches := c.W.Reachable([]*ssa.Function{f})[adder]; !reaches {
 			continue
 		}
+		// the admitting function is the one that takes the transaction's fee (tx.GetFee()) and reaches the summation;
+		// the comparison itself may stand in it or in a helper it hands both amounts to
 		for _, b := range f.Blocks {
 			for _, in := range b.Instrs {
 				if call, ok := in.(*ssa.Call); ok {
 					e := c.W.ExprOf(call)
+					if calleeIs(e, "FeeTx.GetFee") && admit == nil {
+						admit = f
+					}
 					if calleeIs(e, "types.Coins).AmountOf") && len(e.Args) == 2 && calleeIs(e.Args[0], "FeeTx.GetFee") {
 						admit = f
 					}
@@ -203,7 +231,7 @@ func feeTable(c *Ctx, m string, f *ssa.Function) {
 	w, r := c.W, c.R
 	want := feeBearingTypes(c, m)
 	seen := map[string]bool{}
-	n := 0
+	n, nalt := 0, 0
 	for _, call := range accumulatingAdds(c, f) {
 		{
 			var in ssa.Instruction = call
@@ -222,57 +250,124 @@ func feeTable(c *Ctx, m string, f *ssa.Function) {
 				}
 			}
 			key := fmt.Sprintf("%s|add%d", m, n)
-			if cnt != 1 {
+			type addAlt struct {
+				guardT string
+				x      *ir.Expr
+			}
+			var alts []addAlt
+			if cnt == 1 {
+				alts = append(alts, addAlt{guardT, e.Args[1]})
+			} else if cnt == 0 {
+				// the per-message fee is computed by a helper holding the type switch (`fee, isFeeMsg := msgFee(msg)`): every
+				// return of the helper that can reach the addition stands under exactly one type and supplies that type's addend
+				alts = nil
+				hx := e.Args[1]
+				ri := 0
+				if hx.Op == "res" && len(hx.Args) == 1 {
+					fmt.Sscan(hx.Name, &ri)
+					hx = hx.Args[0]
+				}
+				if hx.Op == "call" && hx.Callee != nil && len(hx.Callee.Blocks) > 0 && hx.Call != nil {
+					g := hx.Callee
+					flag := -1
+					for i := 0; i < g.Signature.Results().Len(); i++ {
+						if g.Signature.Results().At(i).Type().String() == "bool" {
+							flag = i
+						}
+					}
+					okShape := true
+					if flag >= 0 {
+						// the addition happens only when the helper said "fee-bearing"
+						okShape = w.Guarded(f, in, func(p ir.Pred) bool {
+							return p.Pol && p.E.Op == "res" && p.E.Name == fmt.Sprint(flag) && len(p.E.Args) == 1 && p.E.Args[0].Call == hx.Call
+						}, 0)
+					}
+					for _, blk := range g.Blocks {
+						ret, isRet := blk.Instrs[len(blk.Instrs)-1].(*ssa.Return)
+						if !isRet || !okShape {
+							continue
+						}
+						if flag >= 0 {
+							if cst, ok := ret.Results[flag].(*ssa.Const); ok && cst.Value != nil && cst.Value.String() == "false" {
+								continue
+							}
+						}
+						gt, gc := "", 0
+						for t := range want {
+							t := t
+							if w.Guarded(g, ret, func(p ir.Pred) bool {
+								return p.Pol && p.E.Op == "res" && p.E.Name == "1" && assertedMsgType(p.E) == t
+							}, 0) {
+								gt = t
+								gc++
+							}
+						}
+						if gc != 1 {
+							okShape = false
+							break
+						}
+						alts = append(alts, addAlt{gt, w.ArgSubst(hx.Call, g, w.ExprOf(ret.Results[ri]))})
+					}
+					if !okShape {
+						alts = nil
+					}
+				}
+			}
+			if len(alts) == 0 {
 				r.Bad("A7.fee-table", key, pos(c, in), "every addition to the expected fee happens under exactly one fee-bearing message type", fmt.Sprintf("guarded by %d types", cnt))
 				continue
 			}
-			seen[guardT] = true
-			role := roleOfMsg(c, m, guardT)
-			x := e.Args[1]
-			// the addend may be computed by a small helper of the ante package (per-slot fee x slots): look inside
-			for i := 0; i < 3 && x.Op == "call" && x.Callee != nil && ir.FnPkg(x.Callee) != nil && ir.RelPkg(ir.FnPkg(x.Callee).Path()) == "x/"+m+"/ante"; i++ {
-				in2 := w.Inline(x)
-				if in2 == nil {
-					break
-				}
-				x = in2
-			}
-			ok2 := false
-			wantDesc := ""
-			switch role {
-			case "register":
-				wantDesc = "(params.Denom, params.FeeRegister)"
-				ok2 = feeCoinOf(c, m, x, "FeeRegister")
-			case "record":
-				wantDesc = "(params.Denom, params.FeeRecord)"
-				ok2 = feeCoinOf(c, m, x, "FeeRecord")
-			case "purchase":
-				wantDesc = "(params.Denom, params.FeePurchaseStorage x msg.Number)"
-				// NewCoin(perSlot.Denom, perSlot.Amount.Mul(NewInt(int64(m.Number)))) with perSlot the per-slot fee coin
-				if calleeIs(x, "types.NewCoin") && len(x.Args) == 2 {
-					d, amt := x.Args[0], x.Args[1]
-					okD := d.Op == "field" && d.Name == "Denom" && feeCoinOf(c, m, d.Args[0], "FeePurchaseStorage")
-					okA := calleeIs(amt, "math.Int).Mul") && len(amt.Args) == 2
-					if okA {
-						l, rr := amt.Args[0], amt.Args[1]
-						okL := l.Op == "field" && l.Name == "Amount" && feeCoinOf(c, m, l.Args[0], "FeePurchaseStorage")
-						num := rr
-						if calleeIs(num, "NewInt") && len(num.Args) == 1 {
-							num = stripConvE(num.Args[0])
-						}
-						okR := num.Op == "field" && num.Name == "Number" && assertedMsgType(num) == guardT
-						okA = okL && okR
+			for _, alt := range alts {
+				nalt++
+				guardT := alt.guardT
+				seen[guardT] = true
+				role := roleOfMsg(c, m, guardT)
+				x := alt.x
+				// the addend may be computed by a small helper of the ante package (per-slot fee x slots): look inside
+				for i := 0; i < 3 && x.Op == "call" && x.Callee != nil && ir.FnPkg(x.Callee) != nil && ir.RelPkg(ir.FnPkg(x.Callee).Path()) == "x/"+m+"/ante"; i++ {
+					in2 := w.Inline(x)
+					if in2 == nil {
+						break
 					}
-					ok2 = okD && okA
+					x = in2
 				}
+				ok2 := false
+				wantDesc := ""
+				switch role {
+				case "register":
+					wantDesc = "(params.Denom, params.FeeRegister)"
+					ok2 = feeCoinOf(c, m, x, "FeeRegister")
+				case "record":
+					wantDesc = "(params.Denom, params.FeeRecord)"
+					ok2 = feeCoinOf(c, m, x, "FeeRecord")
+				case "purchase":
+					wantDesc = "(params.Denom, params.FeePurchaseStorage x msg.Number)"
+					// NewCoin(perSlot.Denom, perSlot.Amount.Mul(NewInt(int64(m.Number)))) with perSlot the per-slot fee coin
+					if calleeIs(x, "types.NewCoin") && len(x.Args) == 2 {
+						d, amt := x.Args[0], x.Args[1]
+						okD := d.Op == "field" && d.Name == "Denom" && feeCoinOf(c, m, d.Args[0], "FeePurchaseStorage")
+						okA := calleeIs(amt, "math.Int).Mul") && len(amt.Args) == 2
+						if okA {
+							l, rr := amt.Args[0], amt.Args[1]
+							okL := l.Op == "field" && l.Name == "Amount" && feeCoinOf(c, m, l.Args[0], "FeePurchaseStorage")
+							num := rr
+							if calleeIs(num, "NewInt") && len(num.Args) == 1 {
+								num = stripConvE(num.Args[0])
+							}
+							okR := num.Op == "field" && num.Name == "Number" && assertedMsgType(num) == guardT
+							okA = okL && okR
+						}
+						ok2 = okD && okA
+					}
+				}
+				r.Require(ok2, "A7.fee-table", fmt.Sprintf("%s|%s", m, guardT), pos(c, in), "a "+guardT+" adds "+wantDesc+" to the expected fee", "adds "+w.Expand(x, 4).String())
 			}
-			r.Require(ok2, "A7.fee-table", fmt.Sprintf("%s|%s", m, guardT), pos(c, in), "a "+guardT+" adds "+wantDesc+" to the expected fee", "adds "+w.Expand(x, 4).String())
 		}
 	}
 	for t := range want {
 		r.Require(seen[t], "A7.fee-table", m+"|covered|"+t, w.Pos(f.Pos()), "the fee calculator charges for "+t, "no addition under that type")
 	}
-	r.Floor("fee additions in "+m, n, 3)
+	r.Floor("fee additions in "+m, nalt, 3)
 }
 
 // accumulatedAmount: e is <accumulator>.Amount where the accumulator is the local the fee additions are stored into.
@@ -280,6 +375,10 @@ func isAmountOfFee(c *Ctx, f *ssa.Function, e *ir.Expr) bool {
 	// the sum may be returned by a helper (possibly as one of several results): <helper(...)#i>.Amount
 	if e.Op == "field" && e.Name == "Amount" && len(e.Args) == 1 {
 		x := e.Args[0]
+		// ... possibly inside a small result struct (tally.expected.Amount)
+		for x.Op == "field" && len(x.Args) == 1 {
+			x = x.Args[0]
+		}
 		if x.Op == "res" && len(x.Args) == 1 {
 			x = x.Args[0]
 		}
@@ -323,11 +422,21 @@ func feeExactness(c *Ctx, m string, f *ssa.Function) {
 			p.Pol && calleeIs(p.E, "math.Int).Equal") && len(p.E.Args) == 2 && (isA(p.E.Args[0]) && isE(p.E.Args[1]) || isE(p.E.Args[0]) && isA(p.E.Args[1]))
 	}
 	n := 0
+	// asked on the flat view of f: the comparison may stand in f or in a helper handed both amounts (whose verdict f returns)
+	none := func(ssa.Instruction) bool { return false }
+	badLess := map[*ssa.Return]bool{}
+	for _, ret := range w.FlatMustPassM(f, none, notLess) {
+		badLess[ret] = true
+	}
+	badMore := map[*ssa.Return]bool{}
+	for _, ret := range w.FlatMustPassM(f, none, notMore) {
+		badMore[ret] = true
+	}
 	for i, ret := range w.SuccessReturns(f) {
 		n++
 		key := fmt.Sprintf("%s|return%d", m, i)
-		r.Require(w.Guarded(f, ret, notLess, 0), "A2.fee-exactness", "not-less|"+key, pos(c, ret), "a transaction is admitted only when the fee-denomination amount offered is not less than the expected amount (sdk.Int comparison)", "the admitting return is reachable with a smaller amount, or only a partial-order comparison guards it")
-		r.Require(w.Guarded(f, ret, notMore, 0), "A2.fee-exactness", "not-more|"+key, pos(c, ret), "a transaction is admitted only when the fee-denomination amount offered is not more than the expected amount (sdk.Int comparison)", "the admitting return is reachable with a larger amount, or only a partial-order comparison guards it")
+		r.Require(!badLess[ret], "A2.fee-exactness", "not-less|"+key, pos(c, ret), "a transaction is admitted only when the fee-denomination amount offered is not less than the expected amount (sdk.Int comparison)", "the admitting return is reachable with a smaller amount, or only a partial-order comparison guards it")
+		r.Require(!badMore[ret], "A2.fee-exactness", "not-more|"+key, pos(c, ret), "a transaction is admitted only when the fee-denomination amount offered is not more than the expected amount (sdk.Int comparison)", "the admitting return is reachable with a larger amount, or only a partial-order comparison guards it")
 	}
 	r.Floor("admitting returns of the "+m+" fee calculator", n, 1)
 	// no partial-order comparison decides admission
@@ -384,10 +493,19 @@ func decoratorChecks(c *Ctx, m string, feeF *ssa.Function) {
 				if g == feeF {
 					return false
 				}
-				for _, b := range g.Blocks {
-					for _, in := range b.Instrs {
-						if call, ok := in.(ssa.CallInstruction); ok && methodNameOf(call) == "GetMaxPurchasableSlots" {
-							return true
+				// the lookup may stand in the helper, in a closure it creates or in a function it hands on
+				for h := range w.Reachable([]*ssa.Function{g}) {
+					for _, b := range h.Blocks {
+						for _, in := range b.Instrs {
+							if call, ok := in.(ssa.CallInstruction); ok && methodNameOf(call) == "GetMaxPurchasableSlots" {
+								return true
+							}
+							// ... or is handed on as a method value (bk.GetMaxPurchasableSlots)
+							if mc, ok := in.(*ssa.MakeClosure); ok {
+								if f0, ok := mc.Fn.(*ssa.Function); ok && strings.HasPrefix(f0.Name(), "GetMaxPurchasableSlots") {
+									return true
+								}
+							}
 						}
 					}
 				}
@@ -426,8 +544,8 @@ func decoratorChecks(c *Ctx, m string, feeF *ssa.Function) {
 			r.Require(notMod, "A2.decorator-checks", key+"|bypass", pos(c, nx), "the decorator passes a transaction on unchecked only when it contains no "+m+" fee-bearing message", "an unchecked pass-through is reachable for module transactions")
 			continue
 		}
-		r.Require(w.Guarded(dec, nx, nilOf("funds"), 0), "A2.decorator-checks", key+"|funds", pos(c, nx), "a module transaction proceeds only after the affordability check returned nil", "next() reachable without it")
-		r.Require(w.Guarded(dec, nx, nilOf("slots"), 0), "A2.decorator-checks", key+"|slots", pos(c, nx), "a module transaction proceeds only after the max-slot check returned nil", "next() reachable without it")
+		r.Require(w.Guarded(dec, nx, nilOf("funds"), 3), "A2.decorator-checks", key+"|funds", pos(c, nx), "a module transaction proceeds only after the affordability check returned nil", "next() reachable without it")
+		r.Require(w.Guarded(dec, nx, nilOf("slots"), 3), "A2.decorator-checks", key+"|slots", pos(c, nx), "a module transaction proceeds only after the max-slot check returned nil", "next() reachable without it")
 		feeOrSkip := func(p ir.Pred) bool {
 			if nilOf("fee")(p) {
 				return true
@@ -440,7 +558,7 @@ func decoratorChecks(c *Ctx, m string, feeF *ssa.Function) {
 			}
 			return false
 		}
-		r.Require(w.Guarded(dec, nx, feeOrSkip, 0), "A2.decorator-checks", key+"|fee", pos(c, nx), "during CheckTx (not simulating) a module transaction proceeds only after the exact-fee check returned nil", "next() reachable in CheckTx without it")
+		r.Require(w.Guarded(dec, nx, feeOrSkip, 3), "A2.decorator-checks", key+"|fee", pos(c, nx), "during CheckTx (not simulating) a module transaction proceeds only after the exact-fee check returned nil", "next() reachable in CheckTx without it")
 		// and the skip really is limited to !IsCheckTx or simulate: with those edges only, the fee check must be bypassed
 		onlySkip := func(p ir.Pred) bool {
 			return !p.Pol && calleeIs(p.E, "types.Context).IsCheckTx") || p.Pol && p.E.Op == "param" && p.E.Name == dec.Params[len(dec.Params)-2].Name()
